@@ -134,7 +134,14 @@ def viol_terms(row, env, z3, eps=0):
     if c.is_atom():
         if row['robust']:
             raise HarnessError('robust convex atoms are not part of the ro families')
-        return [z3.Not(z3.And(cons_z3(c, env, eps)))]
+        n0 = len(getattr(env, 'exist', []))
+        cs = cons_z3(c, env, eps)
+        bound = getattr(env, 'exist', [])[n0:]
+        if bound:
+            # oracle-side existential auxiliaries (entropy): negation quantifies them universally
+            env.exist = env.exist[:n0]
+            return [z3.ForAll([w for w, _, _ in bound], z3.Not(z3.And(cs)))]
+        return [z3.Not(z3.And(cs))]
     (p,) = c.polys()
     if not row['robust']:
         t = env.p(p)
